@@ -512,7 +512,7 @@ class Shelxfile():
                 if len(spline) >= 8:
                     self.zerr: ZERR = self._assign_card(ZERR(self, spline), line_num)
                     self.Z = self.zerr.Z
-                    if self.Z < 1:
+                    if self.Z <= 0:
                         self.Z = 1
                         if self.verbose or self.debug:
                             print('*** Warning: Z value is zero. ***')
